@@ -157,6 +157,9 @@ class KShim:
         if r is None:
             raise OSError(errno.EBADF, "Bad file descriptor (virtual)")
         if self.fds[fd][1] == "inotify":
+            if (self.calls["read"] - 1) in self.faults.get("eintr_reads", ()):
+                self.sim.fault_fired("read:EINTR")
+                raise InterruptedError(errno.EINTR, "Interrupted system call (injected)")
             pol = self.faults.get("short_read")
             if pol:
                 size = pol[self.read_idx % len(pol)]
